@@ -120,7 +120,7 @@ def conc_c17(tier, seed):
     return [
         (Profile("lock-contention", LOCK_MACROS, threads=(2, 4), ops=(2, 4), caps=("1", "2", "u"), n=n,
                  strategies=("random", "uniform", "pct:2", "pct:4", "after:lock:1", "after:guard:2", "after:lock:3")),
-         ["mutex", "realtime", "stuck"], ["lifetime"]),
+         ["mutex", "realtime", "stuck", "proto"], ["lifetime"]),
     ]
 
 
@@ -270,7 +270,7 @@ PARK_MACROS = {"send": 6, "recv": 6, "sendt": 2, "recvt": 2, "try": 2, "tryr": 2
 
 
 def extra_c0607(pid):
-    return dict(level="proof", lean_targets=[f"Kanal.Props.{pid}", "Kanal.Tie"], props_files=[f"Kanal/Props/{pid}.lean", "Kanal/Tie.lean"],
+    return dict(level="proof", lean_targets=[f"Kanal.Props.{pid}", "Kanal.Tie", "protocheck"], props_files=[f"Kanal/Props/{pid}.lean", "Kanal/Tie.lean"],
                 leancheck=[f"Kanal.Props.{pid}", "Kanal.SigM"],
                 trusted=["memory model = SC values + happens-before flags on release/acquire edges (not full C11)",
                          "conc scheduler, monitors and oracles (harness, lib/conc.py)", "park/unpark and Waker::wake honoured by OS/executor (token / wake log)"],
@@ -380,7 +380,7 @@ PROPS = {
                                              Family("refill5", "exh", "PSRUvd", "1,2", depth=5, configs=("w:s", "l:a"))] if tier == "quick" else
                                             [Family("pending7", "exh", "PQyvdc", "0,1,2", depth=7, configs=("w:s", "l:a")),
                                              Family("refill7", "exh", "PSRUvd", "1,2", depth=7, configs=("w:s", "l:a", "b:a"))],
-                conc=lambda tier, seed: conc_prof("progress", PARK_MACROS, ["stuck", "wake", "orderings"], oracles=("ledger", "lifetime", "timeout"),
+                conc=lambda tier, seed: conc_prof("progress", PARK_MACROS, ["stuck", "wake", "orderings", "proto"], oracles=("ledger", "lifetime", "timeout"),
                                qn=400, tn=12000, strategies=STRATS + ("after:park:1", "after:cas:2", "after:unpark:1"))(tier, seed) +
                                         conc_prof("refill", {"send": 6, "recvt": 4, "recv": 2, "tryr": 2, "asend1": 2, "sendt": 1, "drain": 1}, ["stuck", "wake"],
                                oracles=("ledger", "timeout"), qn=300, tn=8000, caps=("1", "2"), threads=(2, 3), ops=(2, 4))(tier, seed),
@@ -389,7 +389,7 @@ PROPS = {
                 explanation="channel level: a listed waiter cannot complete yet, a registered undecided waiter is listed, a claimed waiter can always be finalised and a final one can return; signal level (SigM, extracted orderings): no lost wake-up incl. spurious unparks and spin->park, future's waker woken exactly once, every own step of the waiter decreases a rank once the peer is done, peer never waits; negative run without unpark"),
     "C07": dict(extra_c0607("C07"),
                 families=lambda tier, seed: [],
-                conc=conc_prof("handoff", PARK_MACROS, ["orderings", "peerproto", "wakerlife", "mutex", "stuck"], oracles=("lifetime", "ledger"),
+                conc=conc_prof("handoff", PARK_MACROS, ["orderings", "peerproto", "wakerlife", "mutex", "stuck", "proto"], oracles=("lifetime", "ledger"),
                                qn=500, tn=15000, strategies=STRATS + ("after:park:1", "after:cas:2", "after:unpark:1", "after:cell:2")),
                 conc_corpus=["D5_recv_future_waker_race.prog"], conc_corpus_monitors=["wake", "peerproto"],
                 relevant=lambda d: True,
@@ -453,7 +453,7 @@ PROPS = {
     ),
     "C17": dict(
         level="proof",
-        lean_targets=["Kanal.Props.C17", "Kanal.Tie"],
+        lean_targets=["Kanal.Props.C17", "Kanal.Tie", "protocheck"],
         props_files=["Kanal/Props/C17.lean", "Kanal/Tie.lean"],
         leancheck=["Kanal.Props.C17", "Kanal.Tie", "Kanal.MutexM"],
         families=lambda tier, seed: [],
